@@ -30,6 +30,14 @@ def run(spec, tier, seed, replay=None):
         bad = [t["name"] for t in pc["theorems"] if not t["closed"]]
         proof_problem = "Props/%s.v: theorems not closed under the global context: %s\n%s" % (pid, bad, pc["log"][-3000:])
 
+    chk = None
+    if tier == "thorough" and proof_ok and not replay:
+        ok, summ = C.coqchk(pid)
+        chk = {"ok": ok, "summary": summ}
+        if not ok:
+            proof_ok = False
+            proof_problem = "coqchk does not accept Props/%s.vo with an empty axiom list: %s" % (pid, summ[-1500:])
+
     # 2. harness
     n = spec["n"][tier] if not replay else 1
     run_info, harness_problem = None, None
@@ -157,6 +165,8 @@ def run(spec, tier, seed, replay=None):
         "histogram": run_info.get("histogram", {}) if run_info else {},
         "forbidden_token_hits": tokens,
     }
+    if chk is not None:
+        cov["coqchk"] = chk
     ev = {"property_id": pid, "tier": tier, "seed": seed, "level": "proof", "coverage": cov,
           "assumptions": spec.get("assumptions", []), "wall_s": round(time.time() - t0, 2),
           "violations": violations}
